@@ -66,6 +66,12 @@ mixed bd(string kind) {
   case "gstrrange": gs = "abcdefgh"; for (i = 0; i < 22; i++) gs[<1..] = gs; return gs;
   case "replace5": for (i = 0; i < 22; i++) s = replace_string(s, "a", "aaa", 0, 1000000); return s;
   case "replace1": for (i = 0; i < 22; i++) s = replace_string(s, "abcdefgh", s + s, 1); return s;
+  case "replace_end":   // the result length crosses the limit while the text in front of the match was copied by the fast path
+    { int lim; foreach (lim in ({ 600, 4000, 70000 })) for (i = lim - 130; i <= lim; i++) s = replace_string(repeat_string("x", i) + "ab", "ab", repeat_string("r", 100)); }
+    return s;
+  case "replace_mid":
+    { int lim; foreach (lim in ({ 600, 4000, 70000 })) for (i = lim - 130; i <= lim; i++) s = replace_string(repeat_string("xy", i / 4) + "abc" + repeat_string("z", i / 2), "abc", repeat_string("r", 60)); }
+    return s;
   case "spad": for (i = 1; i < 22; i++) s = sprintf("%" + (1 << i) + "s", "x"); return s;
   case "spadr": for (i = 1; i < 22; i++) s = sprintf("%-" + (1 << i) + "s|", "x"); return s;
   case "scol": for (i = 1; i < 22; i++) s = sprintf("%-=" + (1 << i) + "s", repeat_string("ab ", 1 << i)); return s;
